@@ -28,7 +28,7 @@ def concretize(v, lo, hi):
     for k in range(lo, hi + 1):
         if v == k:
             return k
-    raise AssertionError("concretize: value outside [%d, %d]" % (lo, hi))
+    raise HarnessError("concretize: value outside [%d, %d]" % (lo, hi))
 
 
 def cbool(b):
